@@ -1,6 +1,6 @@
 """This module implements pipeline blocks for reading input data such as labels."""
 
-from typing import Any, Dict, Iterator, Optional, Tuple
+from typing import Any, Dict, Iterator, List, Optional, Tuple
 
 import numpy as np
 import sleap_io as sio
@@ -36,6 +36,18 @@ def get_max_height_width(labels: sio.Labels) -> Tuple[int, int]:
     )
 
 
+def get_lf_instances(lf: sio.LabeledFrame, user_instances_only: bool = True) -> List:
+    """Return the instances of `lf` that are used for training.
+
+    These are the user instances of the frame if `user_instances_only` is True and the
+    frame has any, else all its instances. The labeled frame itself is left unchanged.
+    """
+    if user_instances_only:
+        if lf.user_instances is not None and len(lf.user_instances) > 0:
+            return lf.user_instances
+    return lf.instances
+
+
 def process_lf(
     lf: sio.LabeledFrame,
     video_idx: int,
@@ -56,15 +68,13 @@ def process_lf(
         number of instances.
 
     """
-    # Filter to user instances
-    if user_instances_only:
-        if lf.user_instances is not None and len(lf.user_instances) > 0:
-            lf.instances = lf.user_instances
+    # Filter to user instances (the labeled frame is left unchanged)
+    lf_instances = get_lf_instances(lf, user_instances_only)
 
     image = np.transpose(lf.image, (2, 0, 1))  # HWC -> CHW
 
     instances = []
-    for inst in lf:
+    for inst in lf_instances:
         if not inst.is_empty:
             instances.append(inst.numpy())
     instances = np.stack(instances, axis=0)
